@@ -632,8 +632,10 @@ func checkVetoLast(c *Ctx, p *Prog, rule string) {
 		c.Undecided(rule, "LookupTerminfo", "-", "not found")
 		return
 	}
-	// the store of SetFgRGB into the private copy marks the amendment; its guards include the tested flag
+	// the store of SetFgRGB into the private copy marks the amendment; its guards include the tested flag,
+	// either a bool (`if addtruecolor && …`) or one bit of a small set (`if amend&bit != 0 && …`)
 	var flag *ssa.Phi
+	var bit uint64
 	eachInstr(fn, func(in ssa.Instruction) {
 		st, ok := in.(*ssa.Store)
 		if !ok {
@@ -641,9 +643,20 @@ func checkVetoLast(c *Ctx, p *Prog, rule string) {
 		}
 		if ref, _, okR := fieldAddrRef(st.Addr); okR && ref.Name == "SetFgRGB" {
 			for _, g := range rawGuardsAt(st.Block()) {
-				if phi, isPhi := g.Cond.(*ssa.Phi); isPhi && g.Positive {
+				if phi, isPhi := g.Cond.(*ssa.Phi); isPhi && g.Positive && phi.Comment != "&&" && phi.Comment != "||" {
 					if b, isB := phi.Type().Underlying().(*types.Basic); isB && b.Kind() == types.Bool {
-						flag = phi
+						flag, bit = phi, 0
+					}
+				}
+				if cmp, isCmp := g.Cond.(*ssa.BinOp); isCmp && cmp.Op == token.NEQ && g.Positive {
+					if and, isAnd := cmp.X.(*ssa.BinOp); isAnd && and.Op == token.AND {
+						if phi, isPhi := and.X.(*ssa.Phi); isPhi {
+							if k, isK := constInt(and.Y); isK && k > 0 {
+								if z, isZ := constInt(cmp.Y); isZ && z == 0 {
+									flag, bit = phi, uint64(k)
+								}
+							}
+						}
 					}
 				}
 			}
@@ -653,9 +666,30 @@ func checkVetoLast(c *Ctx, p *Prog, rule string) {
 		c.Undecided(rule, "LookupTerminfo:amendment-flag", p.pos(fn.Pos()), "the flag tested before the RGB strings are added was not found")
 		return
 	}
+	cleared := func(e ssa.Value) bool {
+		if bit == 0 {
+			v, isB := constBool(e)
+			return isB && !v
+		}
+		// the bit is known to be zero: x &^ mask with the bit in mask, or x & mask without it, or a constant without it
+		if k, isK := constInt(e); isK {
+			return uint64(k)&bit == 0
+		}
+		if bo, isBO := e.(*ssa.BinOp); isBO {
+			if k, isK := constInt(bo.Y); isK {
+				switch bo.Op {
+				case token.AND_NOT:
+					return uint64(k)&bit != 0
+				case token.AND:
+					return uint64(k)&bit == 0
+				}
+			}
+		}
+		return false
+	}
 	ok := false
 	for i, e := range flag.Edges {
-		if v, isB := constBool(e); !isB || v {
+		if !cleared(e) {
 			continue
 		}
 		pred := flag.Block().Preds[i]
